@@ -183,12 +183,10 @@ Aux:
 				ss.Let(asym, evalDefault(ss, ad.Default, depth))
 			}
 		case auxMode:
-			val := ad.Default
-			if list, ok := val.(List); ok && 1 < len(list) {
-				d2 := depth + 1
-				val = ss.Eval(ListToFunc(ss, list, d2), d2)
-			}
-			ss.Let(Symbol(ad.Name), val)
+			// The init-form of an &aux variable is evaluated like the default
+			// form of an &optional or &key parameter, whatever kind of form it
+			// is: a symbol, a quoted object or a call with or without arguments.
+			ss.Let(Symbol(ad.Name), evalDefault(ss, ad.Default, depth))
 		}
 	}
 	return lam.BoundCall(ss, depth)
